@@ -4,6 +4,7 @@
 package pacing
 
 import (
+	"sync"
 	"time"
 
 	"golang.org/x/time/rate"
@@ -11,6 +12,13 @@ import (
 
 type rateLimitPacer struct {
 	limiter *rate.Limiter
+
+	// The limiter must never see time run backwards: SetRate reads the wall clock
+	// while Budget and AllowN are called with the (possibly stale) time of a
+	// ticker event. An older timestamp would move the limiter's reference back
+	// and the interval in between would be credited twice.
+	lock sync.Mutex
+	last time.Time
 }
 
 func newRateLimitPacer(initialRate, burst int) *rateLimitPacer {
@@ -19,15 +27,36 @@ func newRateLimitPacer(initialRate, burst int) *rateLimitPacer {
 	}
 }
 
+// monotonic returns t, or the latest time the limiter has already seen if t is
+// older than that. The caller must hold the lock.
+func (p *rateLimitPacer) monotonic(t time.Time) time.Time {
+	if t.Before(p.last) {
+		return p.last
+	}
+	p.last = t
+
+	return t
+}
+
 func (p *rateLimitPacer) SetRate(r, burst int) {
-	p.limiter.SetLimit(rate.Limit(r))
-	p.limiter.SetBurst(burst)
+	p.lock.Lock()
+	defer p.lock.Unlock()
+
+	now := p.monotonic(time.Now())
+	p.limiter.SetLimitAt(now, rate.Limit(r))
+	p.limiter.SetBurstAt(now, burst)
 }
 
 func (p *rateLimitPacer) Budget(t time.Time) float64 {
-	return p.limiter.TokensAt(t)
+	p.lock.Lock()
+	defer p.lock.Unlock()
+
+	return p.limiter.TokensAt(p.monotonic(t))
 }
 
 func (p *rateLimitPacer) AllowN(t time.Time, n int) bool {
-	return p.limiter.AllowN(t, n)
+	p.lock.Lock()
+	defer p.lock.Unlock()
+
+	return p.limiter.AllowN(p.monotonic(t), n)
 }
